@@ -68,6 +68,8 @@ pub enum EOp {
     LibTree,
     /// the deprecated UI setters: Board::set_piece (kind Some) / Board::clear_square (kind None) on the task's board
     Edit { sq: u8, kind: Option<(Kind, Col)> },
+    /// deprecated castle-right setters: bit 0 add / remove, bits 1-2 king side / queen side / both, bit 3 colour, bit 4 my-their API
+    Rights { code: u8 },
     /// key = hash of the task's current board (real get_hash value), optionally xor-ed with high bits
     TableAddHere { alias: u64 },
     TableGetHere { alias: u64 },
@@ -312,6 +314,7 @@ fn eop_s(e: &EOp) -> String {
             Some((k, c)) => format!("e=edit sq={} put={}{}", sq_name(*sq), kind_letter_upper(*k), col_s(*c)),
             None => format!("e=edit sq={} put=-", sq_name(*sq)),
         },
+        EOp::Rights { code } => format!("e=rights code={}", code),
         EOp::TableAddHere { alias } => format!("e=table_add_here alias={:016x}", alias),
         EOp::TableGetHere { alias } => format!("e=table_get_here alias={:016x}", alias),
     }
@@ -495,6 +498,7 @@ impl Step {
                         };
                         EOp::Edit { sq, kind }
                     }
+                    "rights" => EOp::Rights { code: g("code")?.parse().ok()? },
                     "table_add_here" => EOp::TableAddHere { alias: gx("alias")? },
                     "table_get_here" => EOp::TableGetHere { alias: gx("alias")? },
                     _ => return None,
